@@ -350,6 +350,8 @@ void QXmppOutgoingClient::_q_socketDisconnected()
 {
     debug(u"Socket disconnected"_s);
     d->isAuthenticated = false;
+    // a Bind 2 result of a negotiation that never reached openSession() must not leak into the next attempt
+    d->bind2Bound.reset();
     if (d->nextAddressState == QXmppOutgoingClientPrivate::TryNext) {
         d->connectToNextAddress();
     } else if (d->redirect) {
